@@ -13,18 +13,24 @@ Parts
                  code; closed-form observables of the generated state (purity = 1/prod nu,
                  mean / variance of photon number, parity, vacuum and threshold
                  probabilities by inclusion-exclusion, fidelity with a pure state
-                 = Tr rho1 rho2, quadratic polynomials, Wigner function).
+                 = Tr rho1 rho2, quadratic polynomials, single-mode Wigner function,
+                 phase-shifter expectation value for one / distinct / equal angles from
+                 the Weyl symbol of z^n).
 * ``hbar``       the same dimensionless state under two values of hbar: every dimensionless
                  observable agrees; means ~ sqrt(hbar), covariances ~ hbar, xp-string
                  moments of degree k ~ hbar^(k/2), Wigner function ~ hbar^-d at rescaled
-                 points.
+                 points; photon-number samples with equal seed are identical.
 * ``anchors``    vacuum, (products of) coherent and single-mode squeezed states prepared
                  with gates under a drawn hbar: closed-form value of every observable, so
-                 a consistently wrong factor cannot hide.
-* ``defects``    small deterministic probes of the three regions that are excluded by
-                 construction from the parts above because the unchanged code is wrong
-                 there (multi-mode phase-shifter expectation value, multi-mode Wigner
-                 function, hbar dependence of photon-number sampling).
+                 a consistently wrong factor cannot hide; histograms of 300 photon-number
+                 samples of coherent / thermal / squeezed modes against the exact law.
+* ``defects``    22 deterministic probes: regress cases of three repaired defects
+                 (multi-mode phase-shifter expectation value 93096e1, get_purity / is_pure
+                 under hbar != 2 0adf6f4, photon-number sampling under hbar != 2 38a8cd7;
+                 these are asserted again in the parts above) and of the one region still
+                 excluded by construction above because the code is wrong there: the
+                 multi-mode Wigner function (known finding
+                 C14:defect:wigner:multimode-point-ordering).
 """
 
 from __future__ import annotations
@@ -52,8 +58,10 @@ RULE = (
     "squeezers |r| <= 1.2, mean 0 or drawn N(0,1), d <= 4, hbar in {0.1,0.5,1,2,3.7,10}; "
     "roundtrip adds a loading route, an ORDERED mode subset (permutation prefix) and a rotation "
     "angle; hbar adds a second hbar, a second state (fidelity) and seeds for occupation numbers, "
-    "angles, operator strings and phase-space points; anchors: vacuum / coherent product / "
-    "single-mode squeezed (+displaced) with drawn parameters. Non-trivial = mixed or displaced "
+    "angles (distinct per mode), operator strings, phase-space points and 12 equal-seed "
+    "photon-number shots on all modes in a drawn order (pure states); anchors: vacuum / coherent product / single-mode "
+    "squeezed (+displaced) with drawn parameters, and 300-shot sample histograms of a coherent / "
+    "thermal / squeezed mode. Non-trivial = mixed or displaced "
     "state with inter-mode correlations and hbar != 2 (roundtrip, hbar), any non-vacuum anchor "
     "with hbar != 2; distinct by the full case description."
 )
@@ -62,18 +70,27 @@ ASSUMPTIONS = [
     "numpy linear algebra are the reference; they never call piquasso",
     "closed forms used as anchors: Poisson / squeezed-vacuum number statistics, Tr(rho1 rho2) overlap "
     "formula for Gaussian states, inclusion-exclusion over vacuum probabilities for threshold "
-    "detection, Wick's theorem with the ordered two-point function sigma/2 + i hbar Omega/2",
+    "detection, Wick's theorem with the ordered two-point function sigma/2 + i hbar Omega/2, the Weyl "
+    "symbol 2/(1+z) exp(-(1-z)/(1+z) (x^2+p^2)) of z^n for the phase-shifter expectation value "
+    "(square root continued numerically from z = 1; validated against Fock sums)",
+    "sample histograms: total variation > 0.25 at 300 shots / 10 bins has probability < 1e-13 under the "
+    "exact law; equal-seed sample paths are compared only for pure states measured on all modes (for mixed "
+    "or reduced states the "
+    "sampler's Williamson matrix is unique only up to a rotation per mode, so only the distribution is "
+    "determined)",
     "piquasso's Fock-basis enumeration order (checked by C06) is used to index fock_probabilities and "
     "density_matrix",
-    "multi-mode get_phaseshifter_expectation_value, multi-mode wigner_function and photon-number "
-    "sampling at hbar != 2 are only probed by the `defects` part (known wrong on the unchanged tree)",
+    "multi-mode wigner_function (point assembled in xxpp order, moments in xpxp order) is only probed "
+    "by the `defects` part and its hbar scaling (known finding "
+    "C14:defect:wigner:multimode-point-ordering); everything else is asserted in the search parts",
 ]
-# fractions of ALL evaluations of the run; kept low because a part that fails stops early and
-# must not turn exit 1 into 'generator degenerate' (unchanged tree: 0.15, 0.085, 0.06)
+# fractions of ALL evaluations of a quiet full run (observed: 0.15, 0.085, 0.06)
 FLOORS = {
-    "rt:nontrivial": 0.01,
-    "hb:nontrivial": 0.01,
-    "rt:subset_nonascending": 0.005,
+    "rt:nontrivial": 0.05,
+    "hb:nontrivial": 0.03,
+    "rt:subset_nonascending": 0.02,
+    "hb:samples:compared": 0.03,
+    "an:samples": 0.03,
 }
 HBARS = list(gg.HBARS)
 EPS = float(np.finfo(float).eps)
@@ -411,19 +428,15 @@ def prop_roundtrip(case, ctx):
     t = tolerance(s0)
     nus = gg.symplectic_eigenvalues(sigma, hbar)
     purity = own_purity(s0)
-    if hbar == 2.0:
-        check("C14:value:get_purity", "purity vs 1/sqrt(det sigma0)", state.get_purity(), purity, t)
-        check("C14:value:get_purity", "purity vs 1/prod(nu)", state.get_purity(), 1 / np.prod(nus),
-              t * 10)
-        want_pure = desc.get("kind") in ("pure", "vacuum") or (desc.get("nus") is not None
-                                                                  and max(desc["nus"]) == 1.0)
-        if abs(purity - 1) < 1e-9 or abs(purity - 1) > 1e-4:   # away from the isclose threshold
-            if bool(state.is_pure()) != bool(abs(purity - 1) < 1e-9):
-                raise Violation("C14:value:is_pure", f"{case}: is_pure={state.is_pure()} purity={purity}")
-            if want_pure and not state.is_pure():
-                raise Violation("C14:value:is_pure", f"{case}: pure by construction")
-    else:
-        ctx.exclude("C14:defect:purity:hbar-dependent")
+    check("C14:value:get_purity", "purity vs 1/sqrt(det sigma0)", state.get_purity(), purity, t)
+    check("C14:value:get_purity", "purity vs 1/prod(nu)", state.get_purity(), 1 / np.prod(nus), t * 10)
+    want_pure = desc.get("kind") in ("pure", "vacuum") or (desc.get("nus") is not None
+                                                              and max(desc["nus"]) == 1.0)
+    if abs(purity - 1) < 1e-9 or abs(purity - 1) > 1e-4:   # away from the isclose threshold
+        if bool(state.is_pure()) != bool(abs(purity - 1) < 1e-9):
+            raise Violation("C14:value:is_pure", f"{case}: is_pure={state.is_pure()} purity={purity}")
+        if want_pure and not state.is_pure():
+            raise Violation("C14:value:is_pure", f"{case}: pure by construction")
     sc_n = 1 + own_mean_photon(mu0, s0)
     check("C14:value:mean_photon_number", "mean photon number", state.mean_photon_number(),
           own_mean_photon(mu0, s0), 1e-11 * sc_n)
@@ -483,37 +496,56 @@ def prop_roundtrip(case, ctx):
               own_wigner(mu, sigma, pt), t / hbar)
     else:
         ctx.exclude("C14:defect:wigner:multimode-point-ordering")
-    # phase-shifter expectation value: only one non-zero angle here (reduces to one mode)
+    # phase-shifter expectation value: one non-zero angle (the code reduces to that mode), then
+    # distinct non-zero angles on every mode, then the same angle on every mode
     ang = [0.0] * d
     ang[kk] = float(rng.uniform(-2 * math.pi, 2 * math.pi))
     mu0_k, s0_k = gg.reduce(mu0, s0, [kk])
+    tp = t * 10 * (1 + cond(s0))
     check("C14:value:phaseshifter:one-angle", f"<R({ang})>",
-          state.get_phaseshifter_expectation_value(ang), own_phaseshifter_1mode(mu0_k, s0_k, ang[kk]),
-          t * 10)
-    if d > 1:
-        ctx.exclude("C14:defect:phaseshifter:multimode")
+          state.get_phaseshifter_expectation_value(ang), own_phaseshifter(mu0_k, s0_k, [ang[kk]]), tp)
+    ang = [float(x) for x in rng.uniform(-2 * math.pi, 2 * math.pi, d)]
+    check("C14:value:phaseshifter:distinct-angles", f"<R({ang})>",
+          state.get_phaseshifter_expectation_value(ang), own_phaseshifter(mu0, s0, ang), tp)
+    ang = [ang[0]] * d
+    check("C14:value:phaseshifter:equal-angles", f"<R({ang})>",
+          state.get_phaseshifter_expectation_value(ang), own_phaseshifter(mu0, s0, ang), tp)
+
+
+def own_phaseshifter(mu0, s0, angles):
+    """Tr[rho prod_j z_j^{n_j}], z_j = e^{i phi_j}, from the Weyl symbol of z^n (hbar = 1, vacuum
+    covariance 1):  z^{a^+ a}  <->  2/(1+z) exp(-t (x^2 + p^2)),  t = (1-z)/(1+z).  Integrating the
+    product of these symbols against the Gaussian Wigner function N(mu0, s0/2) gives
+        prod_j 2/(1+z_j) * det(1 + s0 T)^{-1/2} * exp(-mu0^T T (1 + s0 T)^{-1} mu0),   T = diag(t, t),
+    which is written below with  M = s0 A + B,  A = diag((1-z)/2) (+) same,  B = diag((1+z)/2) (+)
+    same  (T = A B^{-1};  no singularity at z = -1):
+        det(M)^{-1/2} exp(-mu0^T A M^{-1} mu0).
+    Checks: s0 = 1 gives prod exp(|alpha_j|^2 (z_j - 1)); one mode, s0 = diag(e^{-2r}, e^{2r}),
+    mu0 = 0 gives 1/(cosh r sqrt(1 - z^2 tanh^2 r)); validated against sum_n p_n prod z_j^{n_j} of
+    random displaced / squeezed / thermal states on d <= 3 to the truncation error.  The square
+    root is continued numerically from all z_j = 1 (value 1) along the ray t*phi, so no branch is
+    assumed."""
+    d = len(angles)
+    phi = np.array([float(a) for a in angles])
+
+    def m_of(scale):
+        z = np.exp(1j * phi * scale)
+        a = np.diag(np.concatenate([(1 - z) / 2, (1 - z) / 2]))
+        b = np.diag(np.concatenate([(1 + z) / 2, (1 + z) / 2]))
+        return s0 @ a + b, a
+
+    sq = 1.0 + 0.0j
+    steps = max(64, int(float(np.max(np.abs(phi))) * 32)) * max(1, d)
+    for k in range(1, steps + 1):
+        mk, _ = m_of(k / steps)
+        cand = np.sqrt(np.linalg.det(mk))
+        sq = cand if abs(cand - sq) <= abs(cand + sq) else -cand
+    m, a = m_of(1.0)
+    return np.exp(-mu0 @ a @ np.linalg.solve(m, mu0.astype(complex))) / sq
 
 
 def own_phaseshifter_1mode(mu0, s0, phi):
-    """Tr[rho z^n], z = e^{i phi}, for one mode (photon-number generating function of a
-    single-mode Gaussian state with dimensionless moments mu0, s0):
-        1 / sqrt(det A) * exp(-mu0^T B mu0),   A = ((1 - z) s0 + (1 + z) 1) / 2,  B = (1 - z) A^{-1} / 2.
-    Checks: s0 = 1 gives exp(|alpha|^2 (z - 1)) (Poisson); s0 = diag(e^{-2r}, e^{2r}), mu0 = 0 gives
-    1 / (cosh r sqrt(1 - z^2 tanh^2 r)) (squeezed vacuum); validated against sum_n p_n z^n of 40
-    random displaced / squeezed / thermal states to the truncation error.  The square root is
-    continued numerically from z = 1 (where it is 1) along the ray t*phi, so no branch is assumed."""
-    z = np.exp(1j * phi)
-    a = ((1 - z) * s0 + (1 + z) * np.eye(2)) / 2
-    # continue sqrt(det) from phi = 0 in 64 steps (robust, no branch assumption)
-    sq = 1.0 + 0.0j
-    steps = max(64, int(abs(phi) * 32))
-    for k in range(1, steps + 1):
-        zz = np.exp(1j * phi * k / steps)
-        dd = np.linalg.det(((1 - zz) * s0 + (1 + zz) * np.eye(2)) / 2)
-        cand = np.sqrt(dd)
-        sq = cand if abs(cand - sq) <= abs(cand + sq) else -cand
-    b = (1 - z) * np.linalg.inv(a) / 2
-    return np.exp(-mu0 @ b @ mu0) / sq
+    return own_phaseshifter(mu0, s0, [phi])
 
 
 # --------------------------------------------------------------------------------------
@@ -544,7 +576,8 @@ def observables(state, desc, hbar, aux, route):
         out["density_matrix"] = (np.asarray(state.density_matrix), 0.0)
     pats = list(itertools.product((0, 1), repeat=d))
     out["threshold"] = (np.array([state.get_threshold_detection_probability(p) for p in pats]), 0.0)
-    # get_purity / is_pure: excluded (known hbar dependence), probed in `defects`
+    out["purity"] = (state.get_purity(), 0.0)
+    out["is_pure"] = (float(state.is_pure()), 0.0)
     d2 = {"d": d, "seed": aux, "kind": ["pure", "mixed"][aux % 2], "displaced": bool((aux // 2) % 2),
           "layers": 1}
     other = load_state(d2, hbar, route)
@@ -591,6 +624,19 @@ def observables(state, desc, hbar, aux, route):
     return out
 
 
+def sample_photons(desc, hbar, modes, shots, seed):
+    d = desc["d"]
+    mu0, s0 = gg.dimensionless(desc)
+    with pq.Program() as prog:
+        pq.Q() | pq.Vacuum()
+        pq.Q() | pq.Mean(gg.vec_to_xpxp(mu0))
+        pq.Q() | pq.Covariance(gg.mat_to_xpxp(s0))
+        pq.Q(*modes) | pq.ParticleNumberMeasurement()
+    sim = pq.GaussianSimulator(d=d, config=pq.Config(hbar=hbar, seed_sequence=seed,
+                                                     measurement_cutoff=5))
+    return np.array(sim.execute(prog, shots=shots).samples, dtype=int)
+
+
 def prop_hbar(case, ctx):
     desc, h1, h2, route = case["state"], case["h1"], case["h2"], case["route"]
     mu0, s0 = gg.dimensionless(desc)
@@ -599,7 +645,6 @@ def prop_hbar(case, ctx):
     if nontriv:
         classes.append("hb:nontrivial")
     ctx.case(case, nontrivial=nontriv, classes=classes)
-    ctx.exclude("C14:defect:purity:hbar-dependent")
     cutoff = {1: 6, 2: 5, 3: 4, 4: 3}[desc["d"]]
     try:
         s1 = load_state(desc, h1, route, cutoff)
@@ -611,6 +656,33 @@ def prop_hbar(case, ctx):
     except Exception as e:
         raise Violation(f"C14:hbar:raises:{type(e).__name__}", f"{case}: {e!r}")
     t = tolerance(s0)
+    # photon-number samples with equal seed ------------------------------------------------
+    # For a pure state measured on ALL modes the sampler is a deterministic function of (dimensionless moments,
+    # seed): T = S S^T is unique and the classical displacement S sqrt(D - 1) xi vanishes up
+    # to sqrt(rounding) ~ 3e-8, which can flip one rng.choice with probability ~1e-7 per
+    # draw, hence at most one of the 12 shots may differ.  For a mixed state the displacement
+    # goes through the Williamson matrix S, which is unique only up to a phase-space
+    # rotation per mode (more when symplectic eigenvalues coincide) and is computed by a
+    # Schur decomposition that amplifies rounding: only the distribution, not the sample
+    # path, is determined there (observed: d=1, kind=mixed, hbar 0.1 vs 0.5 differ in 3 of
+    # 12 shots on the fixed tree).  Mixed states are anchored by the thermal histograms in
+    # `anchors` and by the hbar invariance of fock_probabilities.
+    if desc["d"] <= 3:
+        if desc.get("kind") not in ("pure", "vacuum"):
+            ctx.count("hb:samples:skipped-mixed-williamson-not-unique")
+        else:
+            # all modes, in a drawn order: a proper subset of a pure entangled state is mixed
+            sub = [int(x) for x in progs.rng_of(case["aux"] + 1).permutation(desc["d"])]
+            try:
+                k1 = sample_photons(desc, h1, sub, 12, case["aux"] % 1000)
+                k2 = sample_photons(desc, h2, sub, 12, case["aux"] % 1000)
+            except Exception as e:
+                raise Violation(f"C14:hbar:samples:raises:{type(e).__name__}", f"{case}: {e!r}")
+            ctx.count("hb:samples:compared")
+            if k1.shape != k2.shape or int(np.sum(np.any(k1 != k2, axis=1))) > 1:
+                raise Violation("C14:hbar:samples",
+                                f"photon-number samples on modes {sub} with equal seed differ between "
+                                f"hbar={h1} and hbar={h2}: {k1.tolist()} vs {k2.tolist()}")
     # the second state entering the fidelity has its own conditioning
     for name in o1:
         v1, e1 = o1[name]
@@ -640,8 +712,15 @@ def prop_hbar(case, ctx):
 
 @st.composite
 def anchor_cases(draw):
-    kind = draw(st.sampled_from(["vacuum", "coherent", "squeezed", "squeezed-displaced"]))
+    kind = draw(st.sampled_from(["vacuum", "coherent", "squeezed", "squeezed-displaced", "samples",
+                                 "samples"]))
     hbar = draw(st.sampled_from(HBARS))
+    if kind == "samples":
+        sub = draw(st.sampled_from(["coherent", "thermal", "squeezed"]))
+        par = {"coherent": st.floats(0.3, 1.2), "thermal": st.floats(1.5, 4.0),
+               "squeezed": st.floats(0.3, 1.0)}[sub]
+        return {"anchor": kind, "hbar": hbar, "d": 1, "sub": sub, "par": draw(par),
+                "seed": draw(st.integers(0, 10**6))}
     if kind == "vacuum":
         return {"anchor": kind, "hbar": hbar, "d": draw(st.integers(1, 3)),
                 "aux": draw(st.integers(0, 2**32))}
@@ -674,10 +753,53 @@ def prep_anchor(case, cutoff):
     return sim.execute(prog).state
 
 
+SAMPLE_SHOTS, SAMPLE_CUTOFF, SAMPLE_TV = 300, 10, 0.25
+
+
+def prop_sample_anchor(case, ctx):
+    """Histogram of Gaussian photon-number samples of a coherent / thermal / squeezed-vacuum mode
+    against the exact distribution (truncated at the measurement cutoff and renormalised, as the
+    sampler does).  For k = 10 bins and N = 300 shots P(TV >= 0.25) <= 2^k exp(-2 N 0.25^2) = 5e-14
+    under the exact distribution; the inverted hbar ratio gives TV 0.4 .. 1 for every hbar != 2."""
+    sub, par, hbar = case["sub"], float(case["par"]), case["hbar"]
+    fact = math.factorial
+    with pq.Program() as prog:
+        pq.Q() | pq.Vacuum()
+        if sub == "coherent":
+            pq.Q(0) | pq.Displacement(r=par, phi=0.7)
+            exact = np.array([math.exp(-par ** 2) * par ** (2 * n) / fact(n) for n in range(SAMPLE_CUTOFF)])
+        elif sub == "thermal":
+            pq.Q() | pq.Covariance(np.eye(2) * par)
+            nb = (par - 1) / 2
+            exact = np.array([nb ** n / (1 + nb) ** (n + 1) for n in range(SAMPLE_CUTOFF)])
+        else:
+            pq.Q(0) | pq.Squeezing(r=par, phi=-0.4)
+            th = math.tanh(par)
+            exact = np.array([0.0 if n % 2 else th ** n * fact(n) / (2 ** n * fact(n // 2) ** 2 * math.cosh(par))
+                              for n in range(SAMPLE_CUTOFF)])
+        pq.Q() | pq.ParticleNumberMeasurement()
+    exact = exact / exact.sum()
+    sim = pq.GaussianSimulator(d=1, config=pq.Config(hbar=hbar, seed_sequence=case["seed"],
+                                                     measurement_cutoff=SAMPLE_CUTOFF))
+    try:
+        smp = np.array(sim.execute(prog, shots=SAMPLE_SHOTS).samples, dtype=int)[:, 0]
+    except Exception as e:
+        raise Violation(f"C14:anchor:samples:raises:{type(e).__name__}", f"{case}: {e!r}")
+    emp = np.bincount(smp, minlength=SAMPLE_CUTOFF)[:SAMPLE_CUTOFF] / SAMPLE_SHOTS
+    tv = 0.5 * float(np.abs(emp - exact).sum())
+    if tv > SAMPLE_TV:
+        raise Violation(f"C14:anchor:samples:{sub}",
+                        f"{case}: total variation distance {tv:.3f} > {SAMPLE_TV} between {SAMPLE_SHOTS} "
+                        f"photon-number samples {emp.round(3).tolist()} and the exact distribution "
+                        f"{exact.round(3).tolist()}")
+
+
 def prop_anchor(case, ctx):
     kind, hbar, d = case["anchor"], case["hbar"], case["d"]
     ctx.case(case, nontrivial=(kind != "vacuum" and hbar != 2.0),
              classes=["an:" + kind, f"an:hbar:{hbar}"])
+    if kind == "samples":
+        return prop_sample_anchor(case, ctx)
     rng = progs.rng_of(case["aux"])
     cutoff = {1: 12, 2: 7, 3: 5}[d]
     tiny = [abs(x) for x in (case.get("r") if isinstance(case.get("r"), list) else [case.get("ar", 0.0)])]
@@ -712,12 +834,9 @@ def prop_anchor(case, ctx):
                                  for i in range(d)]) for k in basis])
         check(A + "density_matrix", "|alpha><alpha|", state.density_matrix,
               np.outer(amp, amp.conj()), t)
-        if hbar == 2.0:
-            check(A + "purity", "purity", state.get_purity(), 1.0, t)
-            if not state.is_pure():
-                raise Violation(A + "is_pure", f"{case}")
-        else:
-            ctx.exclude("C14:defect:purity:hbar-dependent")
+        check(A + "purity", "purity", state.get_purity(), 1.0, t)
+        if not state.is_pure():
+            raise Violation(A + "is_pure", f"{case}")
         check(A + "mean_photon_number", "nbar", state.mean_photon_number(), ntot, t * (1 + ntot))
         check(A + "variance_photon_number", "var n", state.variance_photon_number(), ntot,
               t * (1 + ntot) ** 2)
@@ -738,8 +857,12 @@ def prop_anchor(case, ctx):
         ang[kk] = float(rng.uniform(-2 * math.pi, 2 * math.pi))
         check(A + "phaseshifter", f"<R({ang})>", state.get_phaseshifter_expectation_value(ang),
               np.exp(n2[kk] * (np.exp(1j * ang[kk]) - 1)), t)
-        if d > 1:
-            ctx.exclude("C14:defect:phaseshifter:multimode")
+        ang = [float(x) for x in rng.uniform(-2 * math.pi, 2 * math.pi, d)]
+        check(A + "phaseshifter:all-modes", f"<R({ang})>", state.get_phaseshifter_expectation_value(ang),
+              np.prod([np.exp(n2[i] * (np.exp(1j * ang[i]) - 1)) for i in range(d)]), t)
+        ang = [ang[0]] * d
+        check(A + "phaseshifter:all-modes", f"<R({ang})>", state.get_phaseshifter_expectation_value(ang),
+              np.prod([np.exp(n2[i] * (np.exp(1j * ang[i]) - 1)) for i in range(d)]), t)
         # normally ordered ladder moment <a_k^+ a_k^+ a_k a_k> = |alpha|^4, <a_k a_k^+> = |alpha|^2 + 1
         check(A + "ladder_string", "<a+ a+ a a>",
               state.get_ladder_string_moment([d + kk, d + kk, kk, kk]), n2[kk] ** 2, t * (1 + n2[kk] ** 2))
@@ -770,10 +893,7 @@ def prop_anchor(case, ctx):
     check(A + "mean", "xxpp mean", state.xxpp_mean_vector, math.sqrt(hbar) * mu0, 1e-11 * (1 + hbar))
     check(A + "ladder", "G", state._G, np.array([[g]]), 1e-11 * (1 + abs(g)))
     check(A + "ladder", "C", state._C, np.array([[c]]), 1e-11 * (1 + c))
-    if hbar == 2.0:
-        check(A + "purity", "purity", state.get_purity(), 1.0, t * (1 + opnorm(s0) ** 2))
-    else:
-        ctx.exclude("C14:defect:purity:hbar-dependent")
+    check(A + "purity", "purity", state.get_purity(), 1.0, t * (1 + opnorm(s0) ** 2))
     nbar = c + abs(beta) ** 2
     check(A + "mean_photon_number", "nbar", state.mean_photon_number(), nbar, t * (1 + nbar))
     if kind == "squeezed":
@@ -823,7 +943,7 @@ def prop_anchor(case, ctx):
 
 
 # --------------------------------------------------------------------------------------
-# part 4: probes of the regions excluded above (wrong on the unchanged tree)
+# part 4: regress probes of the repaired defects and the probe of the one still excluded region
 
 
 def defect_cases(tier):
@@ -938,21 +1058,16 @@ def prop_defects(case, ctx):
 
 
 def parts(tier):
-    # One roundtrip / hbar evaluation costs 30-100 ms; Hypothesis' shrinker (capped at 300 s per
-    # failure, up to 5 buckets per part and shard) would turn a failing quick run into a
-    # 20-minute run.  Quick reports the smallest failing description found (descriptions are
-    # already a handful of scalars and a seed); thorough shrinks.
-    shrink = tier != "quick"
     return [
         Part("defects", prop_defects, kind="enum", cases=defect_cases,
              budget_s={"quick": 60, "thorough": 120}),
         Part("anchors", prop_anchor, strategy=anchor_cases(),
              examples={"quick": 600, "thorough": 20000},
-             budget_s={"quick": 45, "thorough": 2500}, shrink=shrink),
+             budget_s={"quick": 45, "thorough": 2500}),
         Part("roundtrip", prop_roundtrip, strategy=roundtrip_cases(),
              examples={"quick": 800, "thorough": 20000},
-             budget_s={"quick": 60, "thorough": 3000}, shrink=shrink),
+             budget_s={"quick": 60, "thorough": 3000}),
         Part("hbar", prop_hbar, strategy=hbar_cases(),
              examples={"quick": 600, "thorough": 20000},
-             budget_s={"quick": 60, "thorough": 3000}, shrink=shrink),
+             budget_s={"quick": 60, "thorough": 3000}),
     ]
